@@ -1,0 +1,32 @@
+//! Verification hooks, compiled only with `--cfg stam_verif`. Read-only dump of the reverse
+//! indices, id maps and store slots so that an external harness can compare them entry by entry.
+
+use crate::annotationstore::AnnotationStore;
+use crate::store::*;
+use crate::types::*;
+
+impl AnnotationStore {
+    /// Verification hook (read-only): every relation map, id map and store vector as plain tuples.
+    pub fn verif_dump(&self) -> serde_json::Value {
+        serde_json::json!({
+            "annotations": self.annotations.iter().map(|a| a.as_ref().map(|a| a.id().map(|s| s.to_string()))).collect::<Vec<_>>(),
+            "resources": self.resources.iter().map(|r| r.as_ref().map(|r| r.verif_dump())).collect::<Vec<_>>(),
+            "annotationsets": self.annotationsets.iter().map(|s| s.as_ref().map(|s| s.verif_dump())).collect::<Vec<_>>(),
+            "annotation_idmap": self.annotation_idmap.verif_dump(),
+            "resource_idmap": self.resource_idmap.verif_dump(),
+            "dataset_idmap": self.dataset_idmap.verif_dump(),
+            "substore_idmap": self.substore_idmap.verif_dump(),
+            "dataset_data_annotation_map": self.dataset_data_annotation_map.verif_dump(),
+            "textrelationmap": self.textrelationmap.verif_dump(),
+            "resource_annotation_metamap": self.resource_annotation_metamap.verif_dump(),
+            "dataset_annotation_metamap": self.dataset_annotation_metamap.verif_dump(),
+            "annotation_annotation_map": self.annotation_annotation_map.verif_dump(),
+            "key_annotation_map": self.key_annotation_map.verif_dump(),
+            "key_annotation_metamap": self.key_annotation_metamap.verif_dump(),
+            "data_annotation_metamap": self.data_annotation_metamap.verif_dump(),
+            "resource_substore_map": self.resource_substore_map.verif_dump(),
+            "dataset_substore_map": self.dataset_substore_map.verif_dump(),
+            "annotation_substore_map": self.annotations.iter().enumerate().filter_map(|(i, _)| self.annotation_substore_map.get(crate::annotation::AnnotationHandle::new(i)).map(|s| (i, s.as_usize()))).collect::<Vec<_>>(),
+        })
+    }
+}
